@@ -167,6 +167,11 @@ def _project_cases():
             for order in ("chdir-first", "chdir-last", "chdir-same-file"):
                 for how in ("monkeypatch", "os"):
                     out.append({"proj": "chdir", "ll": ll, "n": n, "order": order, "how": how})
+    # the session is started in a directory outside the project, the tests are named by their absolute path
+    for ll in (120, 60):
+        for n in (20, 24, 30):
+            for where in ("sibling", "parent"):
+                out.append({"proj": "elsewhere", "ll": ll, "n": n, "cwd": where})
     # monorepo: black is configured in the repository root, a package in between has a metadata-only pyproject.toml
     for ll in (100, 60):
         for n in (24, 30, 36):
@@ -253,6 +258,28 @@ def _judge_project(c):
                 return ("harness", "nothing changed in %s" % name)
             if black.format_str(good, mode=mode) != good:
                 return ("clean-file-not-clean-afterwards", "black failed for %s only, but %s is no longer formatted:\n%s" % (order[0], name, good[-400:]))
+        return None
+    if c["proj"] == "elsewhere":
+        import os
+
+        m2 = black.Mode(line_length=c["ll"])
+        clean2 = black.format_str("from inline_snapshot import snapshot\n\n\ndef test_table():\n    assert list(range(%d)) == snapshot()\n    assert 'a' == snapshot('b')\n" % c["n"], mode=m2)
+        root = plugin.mk_project({})
+        proj = os.path.join(root, "proj")
+        plugin.write_files(proj, {"pyproject.toml": "[tool.black]\nline-length = %d\n" % c["ll"], "tests/test_t.py": clean2})
+        cwd = os.path.join(root, "elsewhere") if c["cwd"] == "sibling" else root
+        os.makedirs(cwd, exist_ok=True)
+        try:
+            r = plugin.session(cwd, ["--inline-snapshot=create,fix", os.path.join(proj, "tests")])
+            after = plugin.listing(proj, text=True)["tests/test_t.py"]
+        finally:
+            plugin.cleanup()
+        if plugin.internal_error(r["out"]):
+            return ("internal-error", r["out"][-600:])
+        if after == clean2:
+            return ("harness", "nothing changed: " + r["out"][-300:])
+        if black.format_str(after, mode=m2) != after:
+            return ("clean-file-not-clean-afterwards", "session started in %s, line-length %d:\n%s" % (c["cwd"], c["ll"], after[-500:]))
         return None
     if c["proj"] == "chdir":
         m2 = black.Mode(line_length=c["ll"])
